@@ -1091,6 +1091,8 @@ class Interp:
             return self.spec_funcs['attr_default'](self, obj, name)
         if isinstance(obj, (VList, VSeq, VDict, VSet, VTuple, VMdEntry, VElem, VAw, VString, VStr)):
             return VBound(obj, name)
+        if isinstance(obj, VBuiltin) and obj.name == 'identity_dedup_dict':
+            return VBound(obj, name)
         if isinstance(obj, VBuiltin):
             return VBuiltin(obj.name + '.' + name)
         if isinstance(obj, VClass):
@@ -1434,6 +1436,24 @@ class Interp:
 
     expr_GeneratorExp = expr_ListComp
 
+    def expr_DictComp(self, e, fr):
+        # {id(m): m for ml in X for m in ml}: the dictionaries of the lists of X, one entry per OBJECT (identity), in first-
+        # occurrence order.  Modelled as an uninterpreted function of the flattened sequence (nothing but its name is known:
+        # it is not the identity, repeated objects are dropped); only .values() / list(...) of it are supported.
+        gens = e.generators
+        if len(gens) == 2 and not gens[0].ifs and not gens[1].ifs and isinstance(e.value, ast.Name) \
+                and isinstance(gens[1].target, ast.Name) and e.value.id == gens[1].target.id \
+                and isinstance(e.key, ast.Call) and isinstance(e.key.func, ast.Name) and e.key.func.id == 'id' \
+                and len(e.key.args) == 1 and isinstance(e.key.args[0], ast.Name) and e.key.args[0].id == gens[1].target.id \
+                and isinstance(gens[1].iter, ast.Name) and isinstance(gens[0].target, ast.Name) and gens[1].iter.id == gens[0].target.id:
+            flat = self.comprehension(ast.ListComp(elt=e.value, generators=gens), fr)
+            t, k = self.seq_term(flat)
+            if t is not None:
+                r = VBuiltin('identity_dedup_dict')
+                r.values_seq = VSeq(z3.Function('dedup_by_identity', t.sort(), t.sort())(t), k)
+                return r
+        raise Unsupported('expression DictComp at line %d' % e.lineno)
+
     def comprehension(self, e, fr):
         gens = e.generators
         # [m for ml in X for m in ml]  -> flat(X)
@@ -1757,6 +1777,8 @@ class Interp:
 
     # ------------------------------------------------------------ methods of containers
     def call_method(self, recv, name, args, kwargs, fr):
+        if isinstance(recv, VBuiltin) and recv.name == 'identity_dedup_dict' and name == 'values' and not args:
+            return recv.values_seq
         if isinstance(recv, VFrame) or getattr(recv, 'frame_like', False):
             return self.spec_funcs['frame_method'](self, recv, name, args, kwargs)
         if isinstance(recv, VObj) and self.st.heap[recv.loc].cls == '__strdict__':
